@@ -242,18 +242,23 @@ func AddStandardFilters(fd FilterDictionary) { //nolint: gocyclo
 	fd.AddFilter("truncate", func(s string, length func(int) int, ellipsis func(string) string) string {
 		n := length(50)
 		el := ellipsis("...")
-		if n-len(el) > maxRegexpRepeat || len(el) > maxRegexpRepeat {
+		if n > maxRegexpRepeat+len(el) || len(el) > maxRegexpRepeat {
 			// the pattern below cannot express such counts
 			rs := []rune(s)
 			if len(rs) <= n {
 				return s
 			}
-			keep := n - len(el)
-			if keep < 0 {
-				// the ellipsis alone is longer than the requested length
-				keep = 0
+			keep := 0
+			if n >= len(el) {
+				// otherwise the ellipsis alone is longer than the requested length
+				keep = n - len(el)
 			}
 			return string(rs[:keep]) + el
+		}
+		if n < len(el) {
+			// no room even for the ellipsis: the pattern below would not match (and for a huge
+			// negative n the subtraction would wrap around into an invalid repeat count)
+			return s
 		}
 		// runes aren't bytes; don't use slice
 		re := regexp.MustCompile(fmt.Sprintf(`^(.{%d})..{%d,}`, n-len(el), len(el)))
